@@ -14,6 +14,7 @@ package main
 
 import (
 	"fmt"
+	"strings"
 	"sync"
 	"sync/atomic"
 	"time"
@@ -411,6 +412,136 @@ func init() {
 			for _, k := range []string{"timeout", "temp"} {
 				emit(fmt.Sprintf("conn wfail cn=%d kind=%s", cn, k))
 			}
+		}
+	}
+}
+
+// conn rdl: a Server with a ReadTimeout. The timeout bounds the wait for the NEXT read of a
+// message, counted from when that message is begun - however the bytes were cut into reads.
+//
+//   conn rdl cut=<bytes of the second message that arrive together with the first> => a=<0|1> b=<0|1> end=<open|closed>
+//
+// t=0 connection accepted; 0.6T message A and the first `cut` bytes of message B arrive in one
+// read; 1.3T the rest of B arrives (0.7T after B was begun); 1.5T the verdict is taken.
+func execConnRDL(toks []string) string {
+	cutS, _ := kvGet(toks, "cut")
+	cut := 0
+	fmt.Sscanf(cutS, "%d", &cut)
+	const T = 400 * time.Millisecond
+	var mu sync.Mutex
+	seen := map[uint32]bool{}
+	h := diam.HandlerFunc(func(c diam.Conn, m *diam.Message) {
+		mu.Lock()
+		seen[m.Header.HopByHopID] = true
+		mu.Unlock()
+	})
+	l := &scriptListener{ch: make(chan acceptRes, 2)}
+	srv := &diam.Server{Handler: h, Dict: dict.Default, ReadTimeout: T}
+	done := make(chan error, 1)
+	go func() { done <- srv.Serve(l) }()
+	mc := newMemConn()
+	mc.honourDeadlines = true
+	start := time.Now()
+	l.ch <- acceptRes{c: mc}
+	a := simpleMsg(280, 0x80, 0, 1, 1, diam.NewAVP(264, 0x40, 0, datatype.DiameterIdentity("a")))
+	b := simpleMsg(280, 0x80, 0, 2, 2, diam.NewAVP(264, 0x40, 0, datatype.DiameterIdentity("bbbbbbbbbbbbbbbbbbbb")))
+	if cut < 0 || cut >= len(b) {
+		return "badinput"
+	}
+	time.Sleep(time.Until(start.Add(T * 6 / 10)))
+	mc.deliver(append(append([]byte{}, a...), b[:cut]...))
+	time.Sleep(time.Until(start.Add(T * 13 / 10)))
+	mc.deliver(b[cut:])
+	time.Sleep(time.Until(start.Add(T * 15 / 10)))
+	mu.Lock()
+	ga, gb := seen[1], seen[2]
+	mu.Unlock()
+	end := "open"
+	if mc.isClosed() {
+		end = "closed"
+	}
+	mc.Close()
+	l.ch <- acceptRes{err: acceptPermErr{}}
+	select {
+	case <-done:
+	case <-time.After(time.Second):
+	}
+	bi := func(x bool) int {
+		if x {
+			return 1
+		}
+		return 0
+	}
+	return fmt.Sprintf("a=%d b=%d end=%s", bi(ga), bi(gb), end)
+}
+
+func init() {
+	executors["conn rdl"] = execConnRDL
+	connGens["rdl"] = func(r *RNG, n int, op string, emit func(string)) {
+		for _, c := range []int{0, 1, 7, 19, 20, 21, 30} {
+			emit(fmt.Sprintf("conn rdl cut=%d", c))
+		}
+	}
+}
+
+// conn bigblock k=<n>: n connections each deliver a message larger than 64 KiB whose handler
+// stays inside until released. A blocked handler holds up its own connection only: all n
+// handlers get started, and a small message on yet another connection is served meanwhile (C08).
+//
+//   conn bigblock k=<n> => started=<handlers started>/<n> other=<served|lost>
+func execConnBigBlock(toks []string) string {
+	kS, _ := kvGet(toks, "k")
+	K := 0
+	fmt.Sscanf(kS, "%d", &K)
+	if K < 1 || K > 32 {
+		return "badinput"
+	}
+	release := make(chan struct{})
+	var started int32
+	var small int32
+	h := diam.HandlerFunc(func(c diam.Conn, m *diam.Message) {
+		if m.Header.HopByHopID == 9 {
+			atomic.StoreInt32(&small, 1)
+			return
+		}
+		atomic.AddInt32(&started, 1)
+		<-release
+	})
+	var conns []*memConn
+	big := simpleMsg(280, 0x80, 0, 1, 1, diam.NewAVP(264, 0x40, 0, datatype.DiameterIdentity(strings.Repeat("b", 70000))))
+	for i := 0; i < K; i++ {
+		mc := newMemConn()
+		mc.remote = memAddr{"tcp", fmt.Sprintf("10.9.3.%d:49152", i+1)}
+		if _, err := diam.NewConn(mc, "mem", h, dict.Default); err != nil {
+			return "err"
+		}
+		conns = append(conns, mc)
+		mc.deliver(big)
+	}
+	waitFor(func() bool { return int(atomic.LoadInt32(&started)) == K }, 2*time.Second)
+	n := atomic.LoadInt32(&started)
+	other := newMemConn()
+	other.remote = memAddr{"tcp", "10.9.3.99:49152"}
+	res := "lost"
+	if _, err := diam.NewConn(other, "mem", h, dict.Default); err == nil {
+		other.deliver(simpleMsg(280, 0x80, 0, 9, 9, diam.NewAVP(264, 0x40, 0, datatype.DiameterIdentity("s"))))
+		other.deliver(append(rawHeader(20+70008, 0x80, 280, 0, 9, 9), rawAVP(264, 0x40, 0, 70008, []byte(strings.Repeat("c", 70000)), true)...))
+		if waitFor(func() bool { return atomic.LoadInt32(&small) == 1 }, 2*time.Second) {
+			res = "served"
+		}
+	}
+	close(release)
+	for _, mc := range append(conns, other) {
+		mc.Close()
+	}
+	return fmt.Sprintf("started=%d/%d other=%s", n, K, res)
+}
+
+func init() {
+	executors["conn bigblock"] = execConnBigBlock
+	connGens["bigblock"] = func(r *RNG, n int, op string, emit func(string)) {
+		for _, k := range []int{2, 5, 9} {
+			emit(fmt.Sprintf("conn bigblock k=%d", k))
 		}
 	}
 }
